@@ -449,6 +449,10 @@ macro_rules! {macro_name} {{
                     String::new()
                 };
                 return format!("use {root}_rt;\n{wit_map_use}{src}");
+            } else if self.needs_wit_map {
+                // World-level functions live next to the `_rt` module itself, the
+                // `WitMap` methods still need the trait in scope.
+                return format!("#[allow(unused_imports)]\nuse _rt::WitMap as _;\n{src}");
             }
         }
         src
